@@ -12,6 +12,9 @@ rsync -a --exclude .git /repo/ "$S/repo/"
 ( cd "$S/repo" && patch -p1 -s < "$PATCH" ) || { echo "patch does not apply"; exit 3; }
 rsync -a --exclude .git "$HERE/harness/" "$S/harness/"
 sed -i "s#=> /repo#=> $S/repo#" "$S/harness/go.mod"
+# link only the engine that serves this property (other engines may be mid-edit)
+ENG="$(grep -l "RegisterMeta(\"$PROP\"" "$S"/harness/engines/*/*.go | head -1 | xargs dirname | xargs basename)"
+printf 'package engines\n\nimport _ "verifharness/engines/%s"\n' "$ENG" > "$S/harness/engines/all.go"
 mkdir -p "$S/root/evidence"
 cp "$HERE/KNOWN_FINDINGS.txt" "$S/root/"
 ( cd "$S/harness" && go build -tags verif -o "$S/vcheck" ./cmd/vcheck ) || { echo "build failed"; exit 3; }
